@@ -16,8 +16,8 @@ def run(tier: str, seed: int):
                 + list(F.fam_faults(1, 3, max_faults=1, reqs='sinks', kinds=('raise',), fault_exc='exit'))
                 # the task's own filter_context() raises (user code of the task that runs before run())
                 + list(F.fam_faults(1, 3, max_faults=1, reqs='sinks', kinds=('raise',), fault_exc='filter', types='TX')))
-        cfgs = list(cfgs) + list(F.fam_mlflow(3))
-        serial = list(F.fam_mlflow(3)) + list(F.fam_faults(1, 3, max_faults=2, kinds=('raise',))) + list(F.fam_faults(1, 3, max_faults=1, kinds=('raise',), fault_exc='exit', reqs='sinks')) + list(F.fam_faults(1, 3, max_faults=1, kinds=('raise',), fault_exc='filter', types='TX', reqs='sinks'))
+        cfgs = list(cfgs) + list(F.fam_mlflow(3)) + list(F.fam_history(2))
+        serial = list(F.fam_mlflow(3)) + list(F.fam_history(2)) + list(F.fam_faults(1, 3, max_faults=2, kinds=('raise',))) + list(F.fam_faults(1, 3, max_faults=1, kinds=('raise',), fault_exc='exit', reqs='sinks')) + list(F.fam_faults(1, 3, max_faults=1, kinds=('raise',), fault_exc='filter', types='TX', reqs='sinks'))
         rule = 'all DAG shapes n<=4 x requested subsets x single fault (raise|died) x continue_on_failure; n<=3 fault sets <=2 x pre-cached subsets; every completion order (batch<=2)'
         e3c = list(F.fam_e3(F.fam_faults(1, 3, max_faults=1, reqs='sinks'), workers=(1, 2), die_exit0=(False, True))) + list(F.fam_e3(F.fam_faults(2, 2, max_faults=1, reqs='sinks', kinds=('died',)), workers=(2,), backends=('fork',), die_exit0=(-36, 3), liveness=False)) + list(F.fam_e3(F.fam_faults(2, 2, max_faults=1, reqs='all', pre=True, bust=(True,)), workers=(2,), liveness=False)) + list(F.fam_e3(F.fam_faults(2, 3, max_faults=1, reqs='sinks', kinds=('raise',), fault_exc='exit'), workers=(2,), liveness=False)) + list(F.fam_e3(F.fam_faults(1, 3, max_faults=1, reqs='sinks', kinds=('raise',), fault_exc='filter', types='TX'), workers=(2,), liveness=False)) + list(F.fam_e3(F.fam_faults(2, 3, max_faults=1, reqs='all', cofs=(True,)), workers=(2,), backends=('fork',), monitor=True, liveness=False))
         # more ready work than workers when the failure is reported (continue_on_failure=False must not start it)
@@ -32,4 +32,6 @@ def run(tier: str, seed: int):
     if tier != 'quick':
         x_cf, x_se, x_e3 = F.thorough_extras('C10')
         cfgs, serial, e3c = list(cfgs) + x_cf, list(serial) + x_se, list(e3c) + x_e3
+    # the Lab object / the backend object have been through an earlier call that failed
+    e3c = list(e3c) + list(F.fam_e3(F.fam_history(2), workers=(2,), liveness=False)) + list(F.fam_e3([c for c in F.fam_faults(2, 2, max_faults=1, reqs='all')], workers=(1, 2), liveness=False, prelude=True))
     return run_e2_property('C10', tier, seed, cfgs, serial_configs=serial, e3_configs=e3c, hash_slices=([('faults3', 1)] if tier == 'quick' else [('faults3', 1), ('faults3', 2), ('faults4', 1)]), real_cases=list(F.fam_real(F.real_bases('faults'), workers=(1, 2))), rule=rule, assumptions=ASSUME)
